@@ -30,6 +30,7 @@ func runC17(c *Ctx) {
 	c17Escapes(c)
 	c17Taint(c)
 	c17Unquote(c)
+	c17QuotedVerbatim(c)
 }
 
 // c17Unquote implements C17.unquote-multibyte and C17.unquote-errors.
@@ -613,4 +614,82 @@ func c18Wire(c *Ctx) {
 		}
 	}
 	c.Check(rule, fnName(mm)+"|priority‖target‖params", strings.Join(seq, ",") == "putrrhead,int16,putdom,ToWire", mm.Pos(), fmt.Sprintf("emission order: %v", seq))
+}
+
+// c17QuotedVerbatim implements C17.quoted-verbatim: what Bquote returns is the final escaped form. A later rewriting
+// pass over it cannot tell an escape sequence from an escaped backslash followed by a letter (`\\t` is a backslash
+// and a 't'), so replacing, mapping or case-folding the quoted text changes what it unquotes to. Splitting and
+// joining on a byte that Bquote never escapes (the dot of domain names) is not a rewrite.
+func c17QuotedVerbatim(c *Ctx) {
+	rule := "C17.quoted-verbatim"
+	c.Rule(rule, "forward dataflow in packages dnsdata and dnsdata/quote: no value derived from the result of quote.Bquote (through conversions, slices, phis and call results) is an argument of a byte-rewriting function (strings/bytes Replace*, Map, ToUpper/ToLower/Title, Trim*, a strings.Replacer method, regexp Replace*)")
+	bq := c.TypesFunc("dnsdata/quote", "Bquote")
+	rewriting := func(f *types.Func) bool {
+		if f == nil || f.Pkg() == nil {
+			return false
+		}
+		switch f.Pkg().Path() {
+		case "strings", "bytes", "regexp":
+		default:
+			return false
+		}
+		n := f.Name()
+		if sig, ok := f.Type().(*types.Signature); ok && sig.Recv() != nil && strings.Contains(sig.Recv().Type().String(), "Replacer") {
+			return true
+		}
+		return strings.HasPrefix(n, "Replace") || n == "Map" || strings.HasPrefix(n, "ToUpper") || strings.HasPrefix(n, "ToLower") || strings.HasPrefix(n, "ToTitle") || n == "Title" || strings.HasPrefix(n, "Trim") || strings.Contains(n, "ReplaceAll")
+	}
+	n := 0
+	for _, fn := range c.OurFuncs("dnsdata") {
+		calls := callsTo(fn, func(f *types.Func) bool { return f == bq })
+		if len(calls) == 0 {
+			continue
+		}
+		c.Examined(fn)
+		for i, ci := range calls {
+			call, ok := ci.(*ssa.Call)
+			if !ok {
+				continue
+			}
+			n++
+			T := map[ssa.Value]bool{call: true}
+			bad := ""
+			for changed := true; changed; {
+				changed = false
+				for v := range T {
+					if v.Referrers() == nil {
+						continue
+					}
+					for _, r := range *v.Referrers() {
+						switch x := r.(type) {
+						case *ssa.Call:
+							if rewriting(calleeOf(x.Common())) {
+								bad = funcShort(calleeOf(x.Common())) + " at " + c.relPos(x.Pos())
+							}
+							if !T[x] {
+								T[x] = true
+								changed = true
+							}
+						case *ssa.Convert, *ssa.ChangeType, *ssa.Slice, *ssa.Phi, *ssa.Extract, *ssa.MakeInterface, *ssa.Index, *ssa.IndexAddr, *ssa.UnOp, *ssa.Next, *ssa.Range:
+							if xv, isV := x.(ssa.Value); isV && !T[xv] {
+								T[xv] = true
+								changed = true
+							}
+						case *ssa.Store:
+							if al, isAl := x.Addr.(*ssa.Alloc); isAl && !T[al] {
+								T[al] = true
+								changed = true
+							}
+							if ia, isIA := x.Addr.(*ssa.IndexAddr); isIA && !T[ia.X] {
+								T[ia.X] = true
+								changed = true
+							}
+						}
+					}
+				}
+			}
+			c.Check(rule, fmt.Sprintf("%s|Bquote#%d", fnName(fn), i+1), bad == "", call.Pos(), "quoted text reaches a rewriting function: "+bad)
+		}
+	}
+	c.Floor(rule, 2)
 }
